@@ -1623,7 +1623,8 @@ class Flattener(object):
                     len(s.targets[0].elts) == len(s.value.elts) and \
                     all(isinstance(t_, ast.Name) or (isinstance(t_, ast.Attribute) and isinstance(t_.value, ast.Name) and t_.value.id == 'self')
                         for t_ in s.targets[0].elts) and \
-                    all(isinstance(v_, (ast.Name, ast.Constant)) for v_ in s.value.elts) and \
+                    all(isinstance(v_, (ast.Name, ast.Constant)) or (isinstance(v_, (ast.List, ast.Tuple)) and not v_.elts) or
+                        (isinstance(v_, ast.Dict) and not v_.keys) for v_ in s.value.elts) and \
                     any(isinstance(t_, ast.Attribute) for t_ in s.targets[0].elts):
                 # self.a, x = (p, q): the right-hand side is made of names / constants, none of them a target: item by item
                 tn_ = {t_.id for t_ in s.targets[0].elts if isinstance(t_, ast.Name)} | {'self'}
